@@ -230,6 +230,8 @@ def select_cases(draw):
          "usage": {"base": draw(st.floats(5, 50)), "hs": draw(st.sampled_from([0.0, 0.5, 1.5])), "hb": draw(st.floats(45, 58)),
                    "cs": draw(st.sampled_from([0.0, 0.5, 1.5])), "cb": draw(st.floats(64, 75))},
          "south": draw(st.booleans())}
+    # the model object may have been fitted to another meter before (a loop that re-uses one object)
+    c["prefit"] = draw(st.sampled_from([None, None, "weekend_offset", "noisy_flat"])) if prof != "current" else draw(st.sampled_from([None, None, None, "weekend_offset"]))
     if prof == "legacy_dev":
         c["criteria"] = draw(st.sampled_from(["bic", "aic", "aicc", "caic", "sabic", "fpe", "rmse_adj", "r_squared_adj"]))
         c["flags"] = draw(st.lists(st.booleans(), min_size=4, max_size=4))
@@ -267,6 +269,19 @@ def judge_select(c, rec):
                                                         "split_selection": dict(zip(FLAGS, c["flags"]), criteria=c["criteria"])})
         else:
             m = em.DailyModel()
+    if c.get("prefit"):
+        pre = synth.daily_frame(n=350, tz=c["tz"], start_day=c["start_day"], noise_seed=c["seed"] % 1000 + 7,
+                                usage={"base": 30.0, "hs": 1.0, "hb": 55.0, "cs": 1.0, "cb": 68.0} if c["prefit"] == "weekend_offset" else {"base": 12.0, "hs": 0.0, "hb": 50.0, "cs": 0.0, "cb": 70.0},
+                                noise=0.02 if c["prefit"] == "weekend_offset" else 0.5, weekend_shift=0.6 if c["prefit"] == "weekend_offset" else 0.0,
+                                season_shift=0.0, weather={"south": c["south"]})
+        if prof == "billing":
+            pobs = pd.Series(np.nan, index=pre.index)
+            preads = pre["observed"].resample("MS").sum()
+            pobs[preads.index.intersection(pre.index)] = preads[preads.index.intersection(pre.index)]
+            pdata = em.BillingBaselineData(pd.DataFrame({"temperature": pre["temperature"], "observed": pobs}), is_electricity_data=True)
+        else:
+            pdata = em.DailyBaselineData(pre, is_electricity_data=True)
+        m.fit(pdata, ignore_disqualification=True)
     m.fit(data, ignore_disqualification=True)
     cands = list(m.combinations)
     ss = m.settings.split_selection
@@ -321,7 +336,7 @@ def judge_select(c, rec):
             if len(want[i]) != 1 or got[i] != want[i][0]:
                 rec.violation(key + "/wrong-submodel", c, "%s predicted by %r, its cell belongs to %r" % (out.index[i].date(), got[i], want[i]))
                 break
-    rec.case(c, len(cands) >= 2, ["sub=select", "profile=" + prof, "split=%d" % int("__" in (best or "")),
+    rec.case(c, len(cands) >= 2, ["sub=select", "profile=" + prof, "reused-object=%d" % bool(c.get("prefit")), "split=%d" % int("__" in (best or "")),
                                   "ncand=%s" % ("1" if len(cands) == 1 else "2-9" if len(cands) < 10 else "10+")])
 
 
@@ -346,6 +361,19 @@ def shards(tier, seed):
         out.append({"sub": "list", "cases": rcases[i::4]})
     for i in range(6):
         out.append({"sub": "select", "n": 5 if q else 60, "seed": mix(seed, ID, "select", i)})
+    # re-used model objects, in both directions (first meter wants the weekday/weekend split and the judged one does not, and the reverse)
+    U = {"base": 25.0, "hs": 1.0, "hb": 55.0, "cs": 1.0, "cb": 68.0}
+    reuse = []
+    for j, prof in enumerate(["current", "legacy_dev", "current", "legacy_dev"]):
+        cse = {"kind": "select", "profile": prof, "seed": 1000 + j + seed % 1000, "tz": "America/Chicago", "n": 365, "start_day": 0,
+               "weekend_shift": 0.0 if j < 2 else 0.5, "season_shift": 0.0, "noise": 0.03, "usage": U, "south": False,
+               "prefit": "weekend_offset" if j < 2 else "noisy_flat"}
+        if prof == "legacy_dev":
+            cse["criteria"] = "bic"
+            cse["flags"] = [True, True, True, True]
+        reuse.append(cse)
+    out.append({"sub": "list", "cases": reuse[:2]})
+    out.append({"sub": "list", "cases": reuse[2:]})
     return out
 
 
